@@ -368,6 +368,7 @@ def kconfig_rules(ctx, ev):
     repo = ctx.repo
     fi = kconfig_reader(ctx)
     fq = ctx.fq(fi)
+    generic.loops_run_to_end(ctx, "C13-D2e every configured manifest is read", fi, {"append", "assign_role", "match", "fullmatch"}, "configuration entries", floor=0)
     outs = ev.outcomes(fi)
     rets = [o for o in outs if o.kind == "return"]
     raises = [o for o in outs if o.kind == "raise"]
